@@ -2,7 +2,9 @@
    (built with -race), as terms of Protocol.hev, checked by the verified checker
    history_ok (vm_compute) plus three direct observations:
      - atomic_ok : a reader that loaded ONE tree (Iter / View / one request) sees the same
-                   version on every route of the multi-route transaction group;
+                   version on every route of a group of routes written together;
+     - reads_ok  : no read shows a version that no committed write produced (aborted /
+                   uncommitted tags are never observed);
      - outs_ok   : every committed write returned the result the sequential map gives
                    (keys have a single owner, so that result is known: success);
      - no panic / deadlock in any goroutine. *)
@@ -18,16 +20,36 @@ Definition chev := hev bool unit.
     history in real-time order, did any goroutine panic or hang) *)
 Definition hcase := (nat * list chev * bool)%type.
 
-Definition same_version (G : nat) (vs : list (obj * N)) : bool :=
-  match filter (fun p => Nat.ltb (fst p) G) vs with
+(* routes written together by one kind of transaction form a group: objects 0..G-1 (multi-route
+   transactions on /ver ...), and, for o >= 100, the family o / 100 (parent route + the routes below it,
+   all rewritten by every transaction of their owner) *)
+Definition grp (G : nat) (o : obj) : option nat :=
+  if Nat.ltb o G then Some 0 else if Nat.leb 100 o then Some (Nat.div o 100) else None.
+
+Definition same_group (G : nat) (a b : obj) : bool :=
+  match grp G a, grp G b with Some x, Some y => Nat.eqb x y | _, _ => false end.
+
+(* within what ONE loaded tree (or one committed transaction) shows, objects of a group carry one version *)
+Fixpoint same_version (G : nat) (vs : list (obj * N)) : bool :=
+  match vs with
   | [] => true
-  | p :: r => forallb (fun q => N.eqb (snd q) (snd p)) r
+  | p :: r => forallb (fun q => negb (same_group G (fst p) (fst q)) || N.eqb (snd q) (snd p)) r && same_version G r
   end.
 
 Definition atomic_ok (G : nat) (h : list chev) : bool :=
   forallb (fun e => match e with
                     | HRet _ (ResR vs _) => same_version G vs
                     | HRet _ (ResW vs _) => same_version G vs
+                    | _ => true
+                    end) h.
+
+(* a read never shows a version that no COMMITTED write produced (the history is complete, so every
+   committed write has returned): tags of aborted or never-committed transactions must not be observed *)
+Definition reads_ok (h : list chev) : bool :=
+  let w := retW h in
+  forallb (fun e => match e with
+                    | HRet _ (ResR vs _) =>
+                        forallb (fun p => N.eqb (snd p) 0 || N.leb (snd p) (N.of_nat (count_o (fst p) w))) vs
                     | _ => true
                     end) h.
 
@@ -38,7 +60,7 @@ Definition model_agrees (c : hcase) : bool :=
   let '(G, h, bad) := c in history_ok h.
 
 Definition spec_ok (c : hcase) : bool :=
-  let '(G, h, bad) := c in history_ok h && atomic_ok G h && outs_ok h && negb bad.
+  let '(G, h, bad) := c in history_ok h && atomic_ok G h && reads_ok h && outs_ok h && negb bad.
 
 Definition mismatches (cs : list hcase) : list nat := true_idx (map (fun c => negb (model_agrees c)) cs).
 Definition spec_violations (cs : list hcase) : list nat := true_idx (map (fun c => negb (spec_ok c)) cs).
